@@ -50,8 +50,11 @@ CLAIMS["C02"] = dict(
     text=("Proved for every tree shape and every call: insert adds exactly one to the route counter when it returns nil and leaves it alone when it fails; update "
           "keeps it; remove subtracts one exactly when it reports success; full Truncate sets it to zero; commit publishes the transaction's counter, so by induction "
           "over any history Len() is (#successful inserts - #successful removes since the last full truncate). methodIndex is fully specified (fixed verbs 0..3, else the "
-          "first custom root with that key, else -1); classify/isExactMatch are the documented case split; commonPrefix is fully specified. Not decided: equivalence of the "
-          "tree with a map (which calls succeed, iterator contents, conflict lists), the per-method Truncate count (countRoutes is trusted)."),
+          "first custom root with that key, else -1); classify/isExactMatch are the documented case split; commonPrefix is fully specified. Router.Handle/Update/Delete publish a tree "
+          "whose counter moved by +1/0/-1 exactly on success; Txn write methods return ErrReadOnlyTxn without touching the tree on a read-only transaction. NOT proved, bounded only: "
+          "equivalence of the tree with a map (which calls succeed, with which error, conflict lists, Has/Route/Len/Iter contents, Delete's result, failed calls change nothing) - "
+          "the stand-in standins/mapmodel_test.go runs every sequence of <=3 (quick) / <=4 (thorough) operations over 13 patterns x 2 methods, directly and inside a write transaction, "
+          "against a sequential map with the documented conflict rule. Not decided at all: the per-method Truncate count (countRoutes is trusted), Prefix/Routes/Methods iterators."),
     design_ref="DESIGN.md section 4 C02, section 9",
     note=TRUSTED + " insert/update/remove/truncate are verified for partial correctness: their safety conditions (nil dereference, index, the three internal-error panics) are assumed, not claimed. A genuine defect (Truncate never adjusted the counter) was repaired (known_findings.json).")
 CLAIMS["C03"] = dict(
@@ -104,7 +107,9 @@ CLAIMS["C18"] = dict(
     technique="bit-vector SMT audit over all 2^32 + 2^128 addresses of the CIDR literals read from the source each run",
     text=("Proved for every address: each CIDR literal of the default tables (privateAndLocalRanges, privateRange, loopbackRanges, linkLocalRanges) lies inside the union of the "
           "IANA special-purpose blocks that are not globally reachable (written in clientip/verif_contracts.go). A genuine defect (192.18.0.0/15 for 198.18.0.0/15) was repaired. "
-          "Not decided: which entry each strategy returns and the spoof-resistance clause (the strategies use range-over-func iterators, outside the verifier's Go subset)."),
+          "NOT proved, bounded only: which entry each strategy returns, never a fallback address, and independence of the rightmost strategies from anything on the left - the "
+          "strategies use range-over-func iterators with non-local returns, outside the verifier's Go subset; the stand-in standins/clientip_test.go compares every resolver with a "
+          "transcription of its documented strategy over all header contents of <=3 (quick) / <=4 (thorough) items from 10 shapes, one or two header lines, both headers, and left padding up to 70000 bytes."),
     design_ref="DESIGN.md section 4 C18, section 9",
     note="Trusted: net.ParseCIDR semantics as re-implemented by the audit (prefix/mask), the registry transcription, the SMT solvers.")
 CLAIMS["C19"] = dict(
